@@ -61,6 +61,11 @@ func getenv(k, d string) string {
 
 func thorough() bool { return cfg.Tier == "thorough" }
 
+// strictKnown: set by the driver when it replays the inputs listed in known_findings.json: oracles that normally count
+// (rather than fail) a case with the signature of a known finding then fail on it, so the driver can tell whether the
+// listed input still misbehaves.
+func strictKnown() bool { return os.Getenv("VERIF_STRICT_KNOWN") == "1" }
+
 // ---------------------------------------------------------------------------------------------------------
 // Watchdog: per-case wall clock and heap budget. A hit dumps all goroutine stacks and exits with code 3
 // (the driver then re-runs the journalled case alone before calling anything a violation).
